@@ -2,8 +2,9 @@
 
 (D) spec/TarImport.tla (+TarImportCat catalogue, TarImportMC properties): the tar importer of
 image.go as a state machine, the archive order chosen by the environment; checked exhaustively by
-TLC against (P) spec/ExportImportProp.tla for the design as implemented (known classes excepted and
-shown to fail) and for the repaired design.  TarImportGen emits scenarios (archive order, link
+TLC against (P) spec/ExportImportProp.tla for the design as it is (property holds everywhere) and,
+through three switches, for the design as it was found (fails exactly on the classes repaired by
+the fixes of findings C09-1..4).  TarImportGen emits scenarios (archive order, link
 pattern, selection + the predicted result / passes / push order); c09drv exports with the real
 ImageExport, audits the stream, re-packs it per scenario, imports with the real ImageImport and
 records raw source / archive / target facts; TLC validates every recorded trace against (P)
@@ -78,22 +79,21 @@ def run(ctx):
     # ------------------------------------------------------------ 1. model checking of (D)
     ctx._specdir()      # (create the scratch copy once, the runs below are concurrent)
     t0 = time.time()
-    KNOWN = "PropHoldsButKnown KnownReproduced Ordered PassBound"
-    runs = [("C09_mc_code_quick.cfg", 8, None,
-             "importer as implemented: every order of 3 representative archives, all link patterns, Docker archives; "
-             "property holds except for the recorded classes, which fail"),
-            ("C09_mc_fixed_quick.cfg", 8, None,
-             "repaired design (no drained reader, tar link semantics, all layer positions): property holds"),
-            # expected counterexamples: the design as implemented does not satisfy the property on the
-            # recorded classes (this is what the real-code scenarios below reproduce)
-            ("C09_mc_s6.cfg", 2, "blob-typed index entry uploaded from a drained reader (C09-1)", ""),
-            ("C09_mc_links.cfg", 2, "link targets / link chains resolved wrongly (C09-2, C09-3)", ""),
-            ("C09_mc_duppath.cfg", 2, "Docker layer path listed twice (C09-4)", "")]
+    runs = [("C09_mc_quick.cfg", 8, None,
+             "importer as it is: every order of 3 representative archives, all link patterns, Docker archives; the "
+             "property holds everywhere"),
+            # expected counterexamples: with one as-found switch on, the design fails on the class that the
+            # corresponding fix repaired (what seeded/fixrev-C09-* re-introduce on real code)
+            ("C09_mc_s6.cfg", 2, "as found: blob-typed index entry uploaded from a drained reader (C09-1, fixed ad30bfd)", ""),
+            ("C09_mc_links.cfg", 2, "as found: link targets / link chains resolved wrongly (C09-2 a529ea7, C09-3 72bf6e2)", ""),
+            ("C09_mc_duppath.cfg", 2, "as found: Docker layer path listed twice (C09-4, fixed 4eaa9ce)", "")]
     if thorough:
-        runs += [("C09_mc_code_small.cfg", 8, None, "as implemented, the other archives of <= 6 entries, every order"),
-                 ("C09_mc_fixed_small.cfg", 8, None, "repaired design, the other archives of <= 6 entries, every order"),
-                 ("C09_mc_code_mid.cfg", 8, None, "as implemented, 13 archives of 7 entries, every order"),
-                 ("C09_sim_big.cfg", 4, "sim", "as implemented, all archives of 7 and 8 entries, 16000 random orders"),
+        runs += [("C09_mc_asfound_quick.cfg", 8, None,
+                  "design as found (all three switches on): fails exactly on the recorded classes, holds elsewhere"),
+                 ("C09_mc_small.cfg", 8, None, "as it is, the other archives of <= 6 entries, every order"),
+                 ("C09_mc_asfound_small.cfg", 8, None, "as found, the other archives of <= 6 entries, every order"),
+                 ("C09_mc_mid.cfg", 8, None, "as it is, 13 archives of 7 entries, every order"),
+                 ("C09_sim_big.cfg", 4, "sim", "as it is, all archives of 7 and 8 entries, 16000 random orders"),
                  ("C09_live.cfg", 4, None, "termination (liveness) on the smallest archives")]
 
     def mc_run(r):
@@ -114,14 +114,19 @@ def run(ctx):
     # name once and is imported in a single pass; the predicted entry order is compared with the real one below
     mc.append(ctx.tlc("TarExport", "C09_mc_roundtrip.cfg", workers=2, timeout=1500,
                       label="export walk composed with the importer, every single-root graph"))
-    vacuous = None
+    vacuous = only_as_found = None
     if thorough:
         # action coverage (TLC's -coverage runs out of memory on the recursive operators): registers
-        cv = ctx.tlc("TarImportCov", "C09_cov.cfg", workers=1, timeout=3000, label="action coverage of the importer spec")
-        m = re.search(r'<<\s*"COVERAGE",\s*<<(.*?)>>\s*>>', cv["output"], re.S)
-        if not m:
-            raise vlib.ToolError("coverage run printed no COVERAGE line")
-        vacuous = [x for x in re.findall(r'"([^"]*)"', m.group(1)) if x]
+        def untaken(cfg, label):
+            cv = ctx.tlc("TarImportCov", cfg, workers=1, timeout=3000, label=label)
+            m = re.search(r'<<\s*"COVERAGE",\s*<<(.*?)>>\s*>>', cv["output"], re.S)
+            if not m:
+                raise vlib.ToolError("coverage run printed no COVERAGE line")
+            return {x for x in re.findall(r'"([^"]*)"', m.group(1)) if x}
+        now = untaken("C09_cov.cfg", "action coverage of the importer spec, design as it is")
+        found = untaken("C09_cov_asfound.cfg", "action coverage of the importer spec, design as found")
+        vacuous = sorted(now & found)
+        only_as_found = sorted(now - found)     # e.g. NotFound -> failed: no well formed archive fails any more
         if vacuous:
             raise vlib.ToolError("actions of TarImport.tla never taken: %s" % vacuous)
     xg = ctx.tlc("TarExportGen", "C09_gen_export.cfg", workers=1, timeout=1500, label="generator: export entry order")
@@ -454,6 +459,7 @@ def run(ctx):
         "pred_compared": compared, "pred_exact": exact, "export_orders_compared": xcompared,
         "drift": drift, "drift_samples": drift_samples,
         "vacuous_actions": vacuous if vacuous is not None else "checked in the thorough tier",
+        "actions_taken_only_with_as_found_switches": only_as_found if only_as_found is not None else "checked in the thorough tier",
         "entry_points": ["RegClient.ImageExport", "RegClient.ImageImport", "ImageWithExportCompress", "ImageWithExportRef",
                          "ImageWithImportName", "scheme reg + ocidir blob/manifest put"],
     }
